@@ -15,6 +15,16 @@ def pure_sweep(tier, rng):
     lines = []
     for f in FN1:
         lines += [f'{f} {vlib.hx(s)}' for s in S]
+    # deeper over the path-structure alphabet (separators, dots, one ASCII and one multi-byte name character)
+    SMALL = ['/', '.', 'a', 'é']
+    S_small = list(vlib.all_strings(SMALL, 6 if tier == 'quick' else 8))
+    for f in FN1:
+        lines += [f'{f} {vlib.hx(s)}' for s in S_small]
+    S3 = list(vlib.all_strings(SMALL, 3 if tier == 'quick' else 4))
+    for f in FN2:
+        for a in S3:
+            for b in S3:
+                lines.append(f'{f} {vlib.hx(a)} {vlib.hx(b)}')
     S2 = list(vlib.all_strings(ADV, 2))
     for f in FN2:
         for a in S2:
@@ -75,6 +85,8 @@ SPEC = dict(
 
 def run(tier, seed, replay):
     import random
+    vlib.build_harness()       # the sweep below must already run against /repo's current tree
+    vlib.build_lean(['driver'])
     extra, bad = pure_sweep(tier, random.Random(seed))
     SPEC['extra_cov'] = extra
     SPEC['extra_fail'] = bad
